@@ -1740,6 +1740,10 @@ class ReplayWindow:
     already seen."""
 
     def __init__(self, size, strike_out_callback):
+        if size < 1:
+            # Without a single slot, is_valid would accept everything at or
+            # above the index, and strike_out could not mark anything.
+            raise ValueError("Replay window needs a size of at least 1")
         self._size = size
         self.strike_out_callback = strike_out_callback
 
@@ -1929,6 +1933,8 @@ class FilesystemSecurityContext(
         windowsize = data.get("window", DEFAULT_WINDOWSIZE)
         if not isinstance(windowsize, int):
             raise self.LoadError("Non-integer replay window")
+        if windowsize < 1:
+            raise self.LoadError("Replay window size needs to be at least 1")
 
         self.sender_id = data["sender-id"]
         self.recipient_id = data["recipient-id"]
